@@ -226,6 +226,24 @@ def exec_interchange(case, obs):
     want = expected_on_disk(a, None)
     obs.check((p["nx"], p["ny"], p["nz"]) == a.shape and same(np.asarray(p["data"]), want) and p["dtype"] == want.dtype.str[1:],
               "cryomap.write", "foreign-rewrite", lambda: f"dims {(p['nx'], p['ny'], p['nz'])} type {p['dtype']}", cls=cls)
+    # inversion requested on its own: every voxel negated (where the type can hold the negative), same shape, same file layout
+    inv_out = "c11_inv." + ext
+    with quiet():
+        iv = obs.lib("invert_contrast", cryomap.invert_contrast, fn, inv_out)
+    af = a.astype(np.float64)
+    holds = np.ones(a.shape, dtype=bool) if a.dtype.kind == "f" else (a != np.iinfo(a.dtype).min)
+    iv = np.asarray(iv)
+    if obs.check(iv.shape == a.shape, "invert_contrast", "inverted-shape", lambda: f"shape {iv.shape} vs {a.shape}", cls=cls):
+        obs.check(bool(np.array_equal(iv.astype(np.float64)[holds], -af[holds])), "invert_contrast", "inverted-values-negated",
+                  lambda: first_diff(iv.astype(np.float64), -af), cls=cls)
+    try:
+        pi, _raw = parse_any(inv_out)
+        di = np.asarray(pi["data"])
+        wf = (-af).astype(np.float32).astype(np.float64) if a.dtype == np.float64 else -af   # float64 data is narrowed to float32 on disk
+        obs.check((pi["nx"], pi["ny"], pi["nz"]) == a.shape and bool(np.array_equal(di.astype(np.float64)[holds], wf[holds])), "invert_contrast", "inverted-file-negated",
+                  lambda: f"dims {(pi['nx'], pi['ny'], pi['nz'])}; " + (first_diff(di.astype(np.float64), wf) if di.shape == a.shape else ""), cls=cls)
+    except (emfmt.EMError, mrcfmt.MRCError) as e:
+        obs.fail("invert_contrast", "file-valid", str(e), cls=ext)
     obs.outcome = (b.shape, str(b.dtype), float(np.asarray(b, dtype=np.float64).ravel()[-1]))
 
 
